@@ -1,0 +1,82 @@
+//! Observation / scheduling seams for the external verification harness.
+//!
+//! Compiled only with the cargo feature `verif-hooks` (off by default). Everything here
+//! is additive: with no observer installed and no override set, every call below is a
+//! no-op and the engine behaves exactly as without the feature. Hooks only pass copies
+//! of values out; they never change a value the engine computes, with two documented
+//! exceptions that replace a *source of nondeterminism or a tuning constant*:
+//! `book_choice` (stands in for the random index drawn when picking a book move) and
+//! `lru_capacity` (capacity of the move generator's LRU cache).
+
+use std::sync::atomic::{AtomicBool, AtomicUsize, Ordering};
+use std::sync::{Arc, Mutex, RwLock};
+
+/// What the search is about to do / has just done. Emitted on the thread doing it.
+#[derive(Clone, Debug)]
+pub enum Event {
+    /// A root-move task has built its private board / generator / context.
+    TaskReady { root_move: String },
+    /// A root-move task has computed its score.
+    TaskDone { root_move: String, score: i16 },
+    /// `alpha_beta_minimax` entered (before the cache lookup).
+    Node { key: u64, alpha: i16, beta: i16, depth: u8, maximizing: bool },
+    /// About to take the shared result cache's read lock.
+    BeforeCacheRead { key: u64, alpha: i16, beta: i16 },
+    /// About to take the shared result cache's write lock and insert.
+    BeforeCacheStore { key: u64, alpha: i16, beta: i16, score: i16 },
+    /// About to bump the shared searched-position counter.
+    BeforeCounterBump,
+}
+
+pub trait Observer: Send + Sync {
+    fn on_event(&self, event: &Event);
+}
+
+static ENABLED: AtomicBool = AtomicBool::new(false);
+static OBSERVER: RwLock<Option<Arc<dyn Observer>>> = RwLock::new(None);
+static LRU_CAPACITY: AtomicUsize = AtomicUsize::new(0);
+static BOOK_CHOICE: Mutex<Option<usize>> = Mutex::new(None);
+
+/// Installs (or removes, with `None`) the process-wide observer.
+pub fn set_observer(observer: Option<Arc<dyn Observer>>) {
+    let mut slot = OBSERVER.write().unwrap();
+    ENABLED.store(observer.is_some(), Ordering::SeqCst);
+    *slot = observer;
+}
+
+#[inline]
+pub fn emit(event: Event) {
+    if !ENABLED.load(Ordering::Relaxed) {
+        return;
+    }
+    let observer = OBSERVER.read().unwrap().clone();
+    if let Some(observer) = observer {
+        observer.on_event(&event);
+    }
+}
+
+#[inline]
+pub fn enabled() -> bool {
+    ENABLED.load(Ordering::Relaxed)
+}
+
+/// 0 = use the engine's own capacity.
+pub fn set_lru_capacity(capacity: usize) {
+    LRU_CAPACITY.store(capacity, Ordering::SeqCst);
+}
+
+pub fn lru_capacity() -> Option<usize> {
+    match LRU_CAPACITY.load(Ordering::SeqCst) {
+        0 => None,
+        n => Some(n),
+    }
+}
+
+/// `Some(i)`: the next book picks take candidate `i % len` instead of a random one.
+pub fn set_book_choice(choice: Option<usize>) {
+    *BOOK_CHOICE.lock().unwrap() = choice;
+}
+
+pub fn book_choice() -> Option<usize> {
+    *BOOK_CHOICE.lock().unwrap()
+}
